@@ -106,6 +106,7 @@ func (vc *VC) verifyFunction() {
 		}
 		fr.env[p] = v
 		fr.params[p.Name()] = v
+		vc.replayParams = append(vc.replayParams, v)
 	}
 	for _, fv := range fn.FreeVars {
 		v := vc.freshVal(st, fv.Type(), "fv."+fv.Name())
@@ -157,6 +158,7 @@ func (vc *VC) verifyFunction() {
 		conds = append(conds, r.cond)
 	}
 	exit := vc.merge(edges, "exit")
+	vc.replayExit = exit
 	results := map[string]Val{}
 	sig := fn.Signature
 	for i := 0; i < sig.Results().Len(); i++ {
@@ -165,6 +167,7 @@ func (vc *VC) verifyFunction() {
 			vs = append(vs, r.vals[i])
 		}
 		rv := vc.mergeVals(conds, vs, sig.Results().At(i).Type(), fmt.Sprintf("ret%d", i))
+		vc.replayResults = append(vc.replayResults, rv)
 		results[fmt.Sprintf("ret%d", i)] = rv
 		if n := sig.Results().At(i).Name(); n != "" && n != "_" {
 			results[n] = rv
